@@ -1,0 +1,29 @@
+use crate::{
+    archetypes::Archetypes,
+    registry::Registry,
+    verif::Dump,
+};
+
+impl<R> Archetypes<R>
+where
+    R: Registry,
+{
+    pub(crate) fn verif_dump(&self, dump: &mut Dump) {
+        for archetype in self.iter() {
+            dump.archetypes.push(archetype.verif_dump());
+        }
+        for identifier in self.type_id_lookup.values() {
+            // SAFETY: Only the address is taken; the slice is never read.
+            dump.type_id_lookup
+                .push(unsafe { identifier.as_slice() }.as_ptr() as usize);
+        }
+        for (key, identifier) in &self.foreign_identifier_lookup {
+            dump.foreign_identifier_lookup.push((
+                key.as_ptr() as usize,
+                key.len(),
+                // SAFETY: Only the address is taken; the slice is never read.
+                unsafe { identifier.as_slice() }.as_ptr() as usize,
+            ));
+        }
+    }
+}
